@@ -99,6 +99,28 @@ def bitsOf (v : Nat) : Nat → List Bool
   | 0 => []
   | n + 1 => v.testBit n :: bitsOf v n
 
+/-- `buf[i] = byte(f(buf[i]))` (no effect outside the buffer; Go would panic there, which cannot
+happen after the callers' size computation) -/
+def updByte (buf : Bytes) (i : Nat) (f : Nat → Nat) : Bytes :=
+  buf.set i (UInt8.ofNat (f (buf.getD i 0).toNat))
+
+/-- the `for n >= 8 { … }` loop of `WriteBitsUnsafe` and the `if n > 0 { … }` after it -/
+def writeWhole (v : Nat) : Nat → Bytes → Nat → Nat → Bytes × Nat
+  | 0, buf, pos, _ => (buf, pos)
+  | f + 1, buf, pos, n =>
+    if n ≥ 8 then writeWhole v f (updByte buf (pos / 8) (fun _ => v >>> (n - 8))) (pos + 8) (n - 8)
+    else if n > 0 then (updByte buf (pos / 8) (fun _ => (v &&& (1 <<< n - 1)) <<< (8 - n)), pos + n)
+    else (buf, pos)
+
+/-- `bits.WriteBitsUnsafe(buf, &pos, v, n)`, statement by statement on byte values: OR into the
+current byte, assign whole bytes, assign the leading bits of the last byte.  `v` is not masked
+(as in Go).  `AudioBitsWrite.writeBitsGo_spec` proves that, on a buffer that is zero from `pos` on
+and for `v < 2^n`, this appends the bit string `bitsOf v n`. -/
+def writeBitsGo (buf : Bytes) (pos v n : Nat) : Bytes × Nat :=
+  let res := 8 - pos % 8
+  if n < res then (updByte buf (pos / 8) (fun b => b ||| (v <<< (res - n))), pos + n)
+  else writeWhole v (n + 1) (updByte buf (pos / 8) (fun b => b ||| (v >>> (n - res)))) (pos + res) (n - res)
+
 /-- value of up to 8 bits, MSB first, zero padded on the right to a whole byte -/
 def byteOfBits (bs : List Bool) : UInt8 :=
   UInt8.ofNat ((List.range 8).foldl (fun a i => 2 * a + (bs.getD i false).toNat) 0)
